@@ -15,6 +15,13 @@ impl<L: Language, N: Analysis<L>> EGraph<L, N> {
         let entry_to_leader = self.unionfind_get_impl(entry.elem.id, map);
         let new = self.chain_pai(&entry, &entry_to_leader);
 
+        #[cfg(slotted_egraphs_verif)]
+        {
+            crate::verif::probe("path_compression");
+            if crate::verif::buggify(crate::verif::BUGGIFY_SKIP_COMPRESSION) {
+                return new;
+            }
+        }
         map[i.0] = new.clone();
         new
     }
